@@ -272,6 +272,10 @@ def generate(req):
         c.execute('create index "ié" on "é"("Ä", n)')
         c.executemany('insert into "É" values(?,?,?,?)', [(i, "UP%d" % (i % 5), "low%d" % (i % 3), i) for i in range(1, 9)])
         c.executemany('insert into "é" values(?,?,?,?)', [(i, "second-UP%d" % (i % 2), "second-low%d" % i, -i) for i in range(1, 6)])
+        # a definition SQLite accepts and the library's parser refuses (float default, IN inside CHECK): every call on
+        # it has to fail the same way, alone and next to other goroutines
+        c.execute("create table t_reject(a REAL DEFAULT 0.5, b, CHECK (b IN (1, 2, 3)))")
+        c.executemany("insert into t_reject(b) values(?)", [(1,), (2,), (3,)])
         c.execute("create table t_empty(x, y)")
         c.execute("create index ix_empty_x on t_empty(x)")
         # real columns that carry the names of the rowid keywords (only _rowid_ still means the rowid)
